@@ -115,6 +115,23 @@ def snap_diff_edif(s0, s1):
     return None
 
 
+def name_answers(n):
+    """what every parent answers when asked for each of its named children by exact name (names are 'left as they were'
+    only if they still work as names)"""
+    out = []
+    for l in n.libraries:
+        if l.name:
+            out.append(("library", l.name, tuple(sorted(id(x) for x in n.get_libraries(l.name)))))
+        for d in l.definitions:
+            if d.name:
+                out.append(("definition", l.name, d.name, tuple(sorted(id(x) for x in l.get_definitions(d.name)))))
+            for kind, coll, f in (("port", d.ports, d.get_ports), ("cable", d.cables, d.get_cables), ("instance", d.children, d.get_instances)):
+                for x in coll:
+                    if x.name and not any(ch in x.name for ch in "*?"):
+                        out.append((kind, d.name, x.name, tuple(sorted(id(y) for y in f(x.name)))))
+    return sorted(out)      # (the EDIF writer may re-order libraries and cells)
+
+
 def queries(n):
     x = 0
     for f in (sdn.get_libraries, sdn.get_definitions, sdn.get_instances, sdn.get_ports, sdn.get_cables, sdn.get_wires, sdn.get_pins):
@@ -129,6 +146,13 @@ def source(ctx, i, rng, d):
     k = i % 9
     if k in (0, 1):
         n = gen_ir.generate(rng, profile="edif", ndefs=rng.randint(2, 7), style="mixed" if k else "simple")
+        # names that are not legal EDIF identifiers (the writer records a generated identifier next to them)
+        pool_ = [x for l in n.libraries for d_ in l.definitions for x in [d_] + list(d_.cables) + list(d_.children)]
+        for k_, x_ in enumerate(rng.sample(pool_, min(len(pool_), 4))):
+            try:
+                x_.name = rng.choice(["%s.v%d", "_%s$%d", "2nd_%s_%d", "%s/buf%d"]) % (x_.name, k_)
+            except ValueError:
+                pass
         # user data is arbitrary: property values with characters that have a meaning in the output syntax
         insts = [c for l in n.libraries for d_ in l.definitions for c in d_.children]
         for c in rng.sample(insts, min(len(insts), 3)):
@@ -192,6 +216,7 @@ def run_case(ctx, i, rng):
                 opts["write_blackbox"] = rng.choice([True, False])
         U = Universe.of(n)
         s0 = snapshot.snap(U, tables=False)
+        q0 = name_answers(n)
         outs = []
         for rnd in range(3):
             f = os.path.join(d, "out%d%s" % (rnd, ext))
@@ -224,6 +249,13 @@ def run_case(ctx, i, rng):
                 ctx.violation("file-truncated:%s" % ext, "output does not end with the closing construct: %r | %s" % (tail[-40:], what))
                 return
             outs.append(text)
+            q1 = name_answers(n)
+            ctx.count("name_lookup_answers_compared", len(q0))
+            if q1 != q0:
+                k_ = next((a for a, b in zip(q0, q1) if a != b), None)
+                ctx.violation("compose-changed-name-lookups:%s" % ext, "asking a parent for a child by its exact name answers differently after compose #%d: "
+                              "%s -> %s | %s" % (rnd + 1, k_, next((b for a, b in zip(q0, q1) if a != b), None), what))
+                return
             if rnd == 0:
                 s1 = snapshot.snap(U, tables=False)
                 ctx.count("snapshots_compared")
